@@ -415,7 +415,7 @@ func genSeqCase(r *RNG, index int, thorough bool) seqCase {
 }
 
 func (c *Ctx) c19Seq() {
-	n := c.N(600, 20000)
+	n := c.N(2000, 20000)
 	const batchSize = 40
 	self, err := os.Executable()
 	if err != nil {
@@ -730,13 +730,16 @@ func (c *Ctx) c19RunProcJobs(jobs []*procJob) {
 		path := filepath.Join(jd, "journal.knut")
 		os.WriteFile(path, []byte(jb.J.Text), 0o644)
 		args := append(append([]string{}, jb.Cmd.Args...), path)
-		jb.base = runProc(30*time.Second, jd, nil, c.KnutBin, args...)
+		jb.base = runProc(10*time.Second, jd, nil, c.KnutBin, args...)
 		for _, s := range jb.Seeds {
+			if jb.base.Timeout || (len(jb.runs) > 0 && jb.runs[len(jb.runs)-1].Timeout) {
+				break // one hang is enough: do not wait for the timeout again and again
+			}
 			bin := c.KnutBin
-			to := 30 * time.Second
+			to := 10 * time.Second
 			if jb.Race {
 				bin = raceBin
-				to = 90 * time.Second
+				to = 40 * time.Second
 			}
 			tr := filepath.Join(jd, fmt.Sprintf("trace-%d.txt", s))
 			pr := runProc(to, jd, []string{fmt.Sprintf("KNUT_VERIF_SEED=%d", s), "KNUT_VERIF_TRACE=" + tr}, bin, args...)
@@ -1196,7 +1199,7 @@ type loaderJob struct {
 }
 
 func (c *Ctx) c19Loader() {
-	n := c.N(160, 4000)
+	n := c.N(320, 4000)
 	kinds := []string{"valid", "valid", "valid", "syntax", "model", "missing", "cycle", "dag"}
 	var jobs []*loaderJob
 	for i := 0; i < n; i++ {
@@ -1225,11 +1228,14 @@ func (c *Ctx) c19Loader() {
 		defer os.RemoveAll(jd)
 		jb.Tree.write(jd)
 		root := filepath.Join(jd, jb.Tree.Files[0].Path)
-		jb.base = runProc(30*time.Second, jd, nil, c.KnutBin, "print", root)
+		jb.base = runProc(10*time.Second, jd, nil, c.KnutBin, "print", root)
 		for _, s := range jb.Seeds {
-			bin, to := c.KnutBin, 30*time.Second
+			if jb.base.Timeout || (len(jb.runs) > 0 && jb.runs[len(jb.runs)-1].Timeout) {
+				break // one hang is enough
+			}
+			bin, to := c.KnutBin, 10*time.Second
 			if jb.Race {
-				bin, to = raceBin, 90*time.Second
+				bin, to = raceBin, 40*time.Second
 			}
 			jb.runs = append(jb.runs, runProc(to, jd, []string{fmt.Sprintf("KNUT_VERIF_SEED=%d", s)}, bin, "print", root))
 		}
@@ -1243,7 +1249,7 @@ func (c *Ctx) c19Loader() {
 			}
 			cat := filepath.Join(jd, "all.knut")
 			os.WriteFile(cat, []byte(b.String()), 0o644)
-			jb.cat = runProc(30*time.Second, jd, nil, c.KnutBin, "print", cat)
+			jb.cat = runProc(10*time.Second, jd, nil, c.KnutBin, "print", cat)
 		}
 	})
 	bt := c.NewBatch()
@@ -1323,12 +1329,12 @@ func runC19(c *Ctx) {
 	c.Extra["seq_s"] = time.Since(t0).Seconds()
 	t0 = time.Now()
 	if !c.Replay || c.OnlyStr == "trace" {
-		c.c19Proc("trace", false, c.N(40, 1500), c.N(5, 6), c.N(2, 3))
+		c.c19Proc("trace", false, c.N(100, 1500), c.N(5, 6), c.N(2, 3))
 	}
 	c.Extra["trace_s"] = time.Since(t0).Seconds()
 	t0 = time.Now()
 	if !c.Replay || c.OnlyStr == "race" {
-		c.c19Proc("race", true, c.N(14, 200), c.N(7, 16), c.N(2, 5))
+		c.c19Proc("race", true, c.N(24, 150), c.N(7, 16), c.N(2, 5))
 	}
 	c.Extra["race_s"] = time.Since(t0).Seconds()
 	t0 = time.Now()
